@@ -34,3 +34,42 @@ contract("C20.extract_context",
                  " for a in range(len(self.event_list)) for b in range(len(self.event_list[a])))",
          },
          loops={0: {'invariant': ['len(base) == len(self.hed_strings) and len(contexts) == len(self.hed_strings)', 'all(implies(covers(self.onsets, self.event_list[a][b], i), self.event_list[a][b].contents.__str__ in contexts[i]) for a in range(_n0) for b in range(len(self.event_list[a])) for i in range(len(self.hed_strings)))', 'all(self.event_list[a][b].contents.__str__ in base[self.event_list[a][b].start_index] for a in range(_n0) for b in range(len(self.event_list[a])))']}, 1: {'invariant': ['len(base) == len(self.hed_strings) and len(contexts) == len(self.hed_strings)', 'all(implies(covers(self.onsets, self.event_list[a][b], i), self.event_list[a][b].contents.__str__ in contexts[i]) for a in range(_n0) for b in range(len(self.event_list[a])) for i in range(len(self.hed_strings)))', 'all(self.event_list[a][b].contents.__str__ in base[self.event_list[a][b].start_index] for a in range(_n0) for b in range(len(self.event_list[a])))', 'all(implies(covers(self.onsets, self.event_list[_n0][b], i), self.event_list[_n0][b].contents.__str__ in contexts[i]) for b in range(_n1) for i in range(len(self.hed_strings)))', 'all(self.event_list[_n0][b].contents.__str__ in base[self.event_list[_n0][b].start_index] for b in range(_n1))']}, 2: {'invariant': ['len(base) == len(self.hed_strings) and len(contexts) == len(self.hed_strings)', 'all(implies(covers(self.onsets, self.event_list[a][b], i), self.event_list[a][b].contents.__str__ in contexts[i]) for a in range(_n0) for b in range(len(self.event_list[a])) for i in range(len(self.hed_strings)))', 'all(self.event_list[a][b].contents.__str__ in base[self.event_list[a][b].start_index] for a in range(_n0) for b in range(len(self.event_list[a])))', 'all(implies(covers(self.onsets, self.event_list[_n0][b], i), self.event_list[_n0][b].contents.__str__ in contexts[i]) for b in range(_n1) for i in range(len(self.hed_strings)))', 'all(self.event_list[_n0][b].contents.__str__ in base[self.event_list[_n0][b].start_index] for b in range(_n1 + 1))', 'all(implies(covers(self.onsets, event, i) and i < event.start_index + 1 + _n2, this_str in contexts[i]) for i in range(len(self.hed_strings)))', 'this_str == event.contents.__str__']}})
+
+# C20 "Duration": the end of a process with a Duration tag is its start plus THAT tag's value (a Delay tag shifts the start, never the end)
+from pyvc.contract import CLASSES, EXTERNS
+TE = "hed/tools/analysis/temporal_event.py"
+class_model("HedNode", {"__is_HedGroup": "Bool", "short_base_tag": "Str", "short_tag": "Str", "dur_value": "Opt[Real]"})
+if "HedNode" not in CLASSES["HedGroup"]["bases"]:
+    CLASSES["HedGroup"]["bases"].append("HedNode")
+class_model("EventGroup", {"children": "List[HedNode]", "__bool__": "Bool"})
+CLASSES["EventGroup"]["opaque_methods"] = True
+class_model("TemporalEventRaw", {"contents": "Opaque", "start_time": "Real", "end_time": "Opt[Real]", "anchor": "Opt[Str]",
+                                 "internal_group": "Opt[HedNode]"})
+EXTERNS["HedNode.value_as_default_unit"] = lambda interp, args, kwargs: interp.field_read(args[0], "dur_value")
+def _group_remove(interp, args, kwargs):
+    """HedGroup.remove(items): the group's children change in an unmodelled way; nothing else is touched"""
+    interp.field_write(args[0], "children", interp.ctx.fresh(interp.ptype("List[HedNode]"), "children"))
+    return None
+
+
+EXTERNS["EventGroup.remove"] = _group_remove
+ISDUR = "(lambda c: (not c.__is_HedGroup) and c.short_base_tag == 'Duration')"
+contract("C20.split_group", file=TE, func="TemporalEvent._split_group",
+         params={"self": "TemporalEventRaw", "contents": "EventGroup"}, returns=None, enc="native",
+         requires=["all(implies(" + ISDUR + "(contents.children[k]), contents.children[k].dur_value is not None) for k in range(len(contents.children)))"],
+         modifies=["self.contents", "self.end_time", "self.anchor", "self.internal_group", "contents.children"],
+         lets={"L": "old(contents.children)"},
+         ensures={
+             "C20.duration.end_is_start_plus_the_duration_tags_value":
+                 "all(implies(" + ISDUR + "(L[k]) and all(not " + ISDUR + "(L[j]) for j in range(k + 1, len(L))),"
+                 " self.end_time is not None and self.end_time == self.start_time + L[k].dur_value) for k in range(len(L)))",
+             "C20.duration.no_duration_tag_leaves_the_end_open": "implies(all(not " + ISDUR + "(L[k]) for k in range(len(L))), self.end_time == old(self.end_time))",
+         },
+         locals={"to_remove": "List[HedNode]"},
+         loops={0: {"invariant": [
+             "self.start_time == old(self.start_time)",
+             "all(implies(" + ISDUR + "(_iter0[k]) and all(not " + ISDUR + "(_iter0[j]) for j in range(k + 1, _n)),"
+             " self.end_time is not None and self.end_time == self.start_time + _iter0[k].dur_value) for k in range(_n))",
+             "implies(all(not " + ISDUR + "(_iter0[k]) for k in range(_n)), self.end_time == old(self.end_time))",
+         ]}},
+         assume=["value_as_default_unit() of a child is the view dur_value (C11 contracts); contents.remove() is an unmodelled method of the group"])
